@@ -27,9 +27,13 @@ CHECKS = {
             'thorough': {'runs': 25000, 'max_vars': 5, 'max_hist': 9}},
     'C15': {'engine': 'tolsim',
             'quick': {'runs': 1500, 'max_pert': 4, 'max_steps': 3,
-                      'max_n': 4},
+                      'max_n': 4, 'run_timeout': 600},
+            # the longest programs (real least squares / L-BFGS-B on an
+            # operand that deep-copies the lens, 40 compensations) take two
+            # minutes on a loaded machine: the per-run alarm is a safety
+            # net, not a verdict
             'thorough': {'runs': 25000, 'max_pert': 5, 'max_steps': 5,
-                         'max_n': 8}},
+                         'max_n': 8, 'run_timeout': 900}},
 }
 
 
